@@ -95,6 +95,11 @@ def rand_string(r, ver):
         s = short_text(r, ver) or "a"
         p = r.randrange(len(s) + 1)
         return s[:p] + r.choice(["\r", "\r\n", "\r"]) + s[p:]
+    if k < 0.02 and ver != 1:
+        # a character CIF 2.0 does not allow (open finding F-disallowed-char-written)
+        s = short_text(r, ver).replace("\r", "") or "a"
+        p = r.randrange(len(s) + 1)
+        return s[:p] + chr(r.choice([1, 8, 11, 12, 0x1f, 0x7f, 0x80, 0x9f, 0xfdd0, 0xfdef])) + s[p:]
     if k < 0.5:
         return short_text(r, ver)
     if k < 0.7:
